@@ -6,6 +6,7 @@ import "gtsverif/core"
 func C14(p *core.Prog, r *core.Report) {
 	Keys(p, r)
 	Key6(p, r)
+	Key78(p, r)
 	TryCacheRules(p, r)
 	Tee(p, r)
 	Commit(p, r)
